@@ -25,15 +25,14 @@ func init() { register("C09", "other", checkC09) }
 // that function share the reason); an entry that matches no undecided obligation is reported as unused (information only).
 var c09Triaged = map[string]string{
 	"(TransportLayerCC).Marshal|B-SLC":                    "fallback, unused on the pinned tree where the symbolic-sum engine proves the obligation (cursor = base + prefix sum of the per-delta step, payload = base + full sum of the per-delta size of packetLen, step <= size for every value class of RecvDelta.Type, round-up >= packetLen; size-domain assumption for the 16-bit arithmetic of the size functions). For encoder forms the engine cannot put into that shape (e.g. a cursor advanced by len(b) of a helper with two successful returns) the argument is the same, read from the code: the write cursor advances by exactly the number of octets delta.Marshal returned, which is what packetLen adds for that delta (both checked per size class by C09-SIZE/RecvDelta), and a delta of any other type makes delta.Marshal fail before the copy",
-	"(ReceiverEstimatedMaximumBitrate).MarshalTo|T-LOOP":  "floating-point loop `for bitrate >= 1<<18 { bitrate /= 2; exp++ }`: bitrate is clamped to the finite constant 0x3FFFFp+63 before the loop and a NaN fails the loop condition, so the loop runs at most 64 times (the integer engine does not model floats)",
 }
 
 func checkC09(c *Ctx) {
 	r := c.Rep
 	p := c.Prog
-	r.Explain = "One clause of the property is decided: 'marshalling the returned packets never panics'. The numeric abstract interpreter evaluates every packet type's Marshal (and rtcp.Marshal / CompoundPacket.Marshal with the member encoders opaque) on an UNCONSTRAINED receiver — every field value and list length, list elements non-nil — which includes every packet a decoder can return (decoders append only fresh, non-nil elements: C01's B-NIL facts). Every index, slice bound (against the length), binary.BigEndian access, nil dereference, division, type assertion, negative make and loop in the reachable universe is an obligation that must be entailed at the instruction; slice-bound and binary-access obligations that relate two loops (the size function adds up the element sizes, the encoder advances its cursor by them: SourceDescription, CCFeedbackReport; ApplicationDefined's padding loop against the padding computed again in MarshalSize; TransportLayerCC's delta cursor, whose step is an if-then-else on the delta type, against packetLen's per-delta size by a case split over the values the type is compared with) are proved by the symbolic-sum engine E3 (cursor = base + prefix sum, buffer = base + full sum of the same per-element term, evaluated from the element encoder and from the size function; for CCFeedbackReport with len(buffer) = MarshalSize() re-established by C05's DET/ALN/LEN rules); one obligation group that needs floating-point reasoning (and, as a fallback for encoder forms outside the symbolic engine's reach, TransportLayerCC's delta cursor) is discharged by a frozen table of reasons confirmed by reading (c09Triaged). C09-SIZE: every element encoder returns, at its nil-error returns, exactly the number of octets its container reserves for it (symbolic identity between the length of the encoder's result and the size function of the same receiver, or a constant). The other clauses of the property — the re-encoded bytes are accepted again and decode to an equal packet list — relate run-time values of two executions and are NOT decided (the structural part of them is C02-LAY/C05/C16)."
+	r.Explain = "One clause of the property is decided: 'marshalling the returned packets never panics'. The numeric abstract interpreter evaluates every packet type's Marshal (and rtcp.Marshal / CompoundPacket.Marshal with the member encoders opaque) on an UNCONSTRAINED receiver — every field value and list length, list elements non-nil — which includes every packet a decoder can return (decoders append only fresh, non-nil elements: C01's B-NIL facts). Every index, slice bound (against the length), binary.BigEndian access, nil dereference, division, type assertion, negative make and loop in the reachable universe is an obligation that must be entailed at the instruction; slice-bound and binary-access obligations that relate two loops (the size function adds up the element sizes, the encoder advances its cursor by them: SourceDescription, CCFeedbackReport; ApplicationDefined's padding loop against the padding computed again in MarshalSize; TransportLayerCC's delta cursor, whose step is an if-then-else on the delta type, against packetLen's per-delta size by a case split over the values the type is compared with) are proved by the symbolic-sum engine E3 (cursor = base + prefix sum, buffer = base + full sum of the same per-element term, evaluated from the element encoder and from the size function; for CCFeedbackReport with len(buffer) = MarshalSize() re-established by C05's DET/ALN/LEN rules); REMB's normalisation loop `for bitrate >= 2^18 { bitrate /= 2 }` is decided by a geometric-progress rule of the numeric engine (the value entering the loop is a NaN or at most the clamp constant). A frozen table (c09Triaged) holds one fallback entry for TransportLayerCC's delta cursor in encoder forms outside the symbolic engine's reach; it is unused on the pinned tree. C09-SIZE: every element encoder returns, at its nil-error returns, exactly the number of octets its container reserves for it (symbolic identity between the length of the encoder's result and the size function of the same receiver, or a constant). The other clauses of the property — the re-encoded bytes are accepted again and decode to an equal packet list — relate run-time values of two executions and are NOT decided (the structural part of them is C02-LAY/C05/C16)."
 	r.RuleText = "C09-NOPANIC: B-IDX, B-SLC, B-BIN, B-NIL, B-DIV, B-TAS, B-MAKE, B-CALL, B-PANIC, T-LOOP over the universe of the 15 packet encoders, rtcp.Marshal and CompoundPacket.Marshal; an obligation the numeric engine leaves open is handed to the symbolic-sum engine (B-SLC, B-BIN), then to c09Triaged; undecided = failure. C09-SIZE: len(enc(x)) = size(x) for the 8 pairs of c09SizePairs."
-	r.Trusted = []string{"go/ssa, VTA call graph", "numeric engine checker/num", "effects analysis (purity of the opaque member encoders in the two datagram-level roots; determinism of the size functions)", "symbolic-sum engine checker/sum", "Go's panic conditions", "frozen table c09Triaged (2 entries with reasons)", "table c09SizePairs (which size each container reserves: 8 entries, confirmed by reading the containers)"}
+	r.Trusted = []string{"go/ssa, VTA call graph", "numeric engine checker/num", "effects analysis (purity of the opaque member encoders in the two datagram-level roots; determinism of the size functions)", "symbolic-sum engine checker/sum", "Go's panic conditions", "frozen table c09Triaged (1 fallback entry, unused on the pinned tree)", "table c09SizePairs (which size each container reserves: 8 entries, confirmed by reading the containers)"}
 	r.Assume = []string{
 		fmt.Sprintf("size domain: the re-encoded packet is at most %d octets (a decoded datagram is at most 65535 octets; above that CCFeedbackReport.Marshal does panic: its buffer length is computed in uint16)", c05MaxBytes),
 		"receivers and list elements are non-nil (what decoders produce)",
